@@ -15,6 +15,7 @@ package dedup
 
 import (
 	"sync"
+	"sync/atomic"
 	"time"
 
 	"github.com/andres-erbsen/clock"
@@ -32,6 +33,12 @@ type TaskRunner interface {
 
 type task struct {
 	input interface{}
+
+	// holders counts the Run calls which looked the task up and have not returned
+	// yet. It is only incremented while holding the Limiter lock, so the garbage
+	// collector (which holds the write lock) never removes a task somebody is
+	// about to use or is using.
+	holders int32
 
 	cond      *sync.Cond
 	running   bool
@@ -78,6 +85,9 @@ func (l *Limiter) Run(input interface{}) interface{} {
 
 	l.RLock()
 	t, ok := l.tasks[input]
+	if ok {
+		atomic.AddInt32(&t.holders, 1)
+	}
 	l.RUnlock()
 	if !ok {
 		// Slow path, must initialize task struct under global write lock.
@@ -87,8 +97,10 @@ func (l *Limiter) Run(input interface{}) interface{} {
 			t = newTask(input)
 			l.tasks[input] = t
 		}
+		atomic.AddInt32(&t.holders, 1)
 		l.Unlock()
 	}
+	defer atomic.AddInt32(&t.holders, -1)
 	verifhook.PointV("dedup.limiter.before_getoutput", input)
 	return l.getOutput(t)
 }
@@ -135,7 +147,9 @@ func (gc *limiterTaskGC) Run() {
 		t.cond.L.Lock()
 		expired := t.expired(gc.limiter.clk.Now()) && !t.running
 		t.cond.L.Unlock()
-		if expired {
+		// A held task must stay in the map: if it were removed, the next caller would
+		// create a second task for the same input and both could run concurrently.
+		if expired && atomic.LoadInt32(&t.holders) == 0 {
 			delete(gc.limiter.tasks, input)
 		}
 	}
